@@ -1523,8 +1523,9 @@ class Bits:
         if os.environ.get('BITSTRING_VERIF') == '1':
             # Verification hook (off unless BITSTRING_VERIF=1): lets a checker cross the chunk boundary with small data.
             chunk_size = int(os.environ.get('BITSTRING_VERIF_TOFILE_CHUNK_BITS', chunk_size))
-        for chunk in self.cut(chunk_size):
-            f.write(chunk.tobytes())
+        # The chunks are taken in stored (MSB0) order whatever the bit numbering mode.
+        for start in range(0, len(self), chunk_size):
+            f.write(self._absolute_slice(start, min(start + chunk_size, len(self))).tobytes())
 
     def startswith(self, prefix: BitsType, start: Optional[int] = None, end: Optional[int] = None) -> bool:
         """Return whether the current bitstring starts with prefix.
